@@ -82,6 +82,7 @@ func run(c *core.Ctx) {
 		fn   func(*core.Ctx)
 	}{
 		{"roundtrip", monitorRoundTrip}, {"generic roundtrip", monitorGenericRoundTrip}, {"fault matrix", monitorFaults},
+		{"large-table fault matrix", monitorBigFaults},
 		{"generic fault matrix", monitorGenericFaults}, {"concurrent", monitorConcurrent}, {"syscall order", monitorSyscallOrder},
 	} {
 		t0 := time.Now()
